@@ -308,7 +308,7 @@ func allChecks() []Check {
 			ID: "C13", Title: "String literals round-trip every text through quoting and escaping",
 			Runs: []HarnessRun{
 				{Harness: "VP_C13_roundtrip", Quick: map[string]int{"L": 2}, Thorough: map[string]int{"L": 3}, MustReach: []string{"C13/roundtrip/done"}, PanicLabel: "C13/roundtrip/no-panic"},
-				{Harness: "VP_C13_neighbours", Quick: map[string]int{"L": 2}, Thorough: map[string]int{"L": 3}, MustReach: []string{"C13/neighbours/done"}, PanicLabel: "C13/neighbours/no-panic"},
+				{Harness: "VP_C13_neighbours", Quick: map[string]int{"L": 2}, Thorough: map[string]int{"L": 2}, MustReach: []string{"C13/neighbours/done"}, PanicLabel: "C13/neighbours/no-panic"},
 				{Harness: "VP_C13_open", Quick: map[string]int{"L": 2}, Thorough: map[string]int{"L": 3}, MustReach: []string{"C13/open/done"}, PanicLabel: "C13/open/no-panic"},
 			},
 			Bounds: map[string]string{"neighbours": "the same literal between two other literals with escapes in one array formula: every literal keeps its own text",
@@ -324,10 +324,11 @@ func allChecks() []Check {
 				{Harness: "VP_C14_tokens", Quick: map[string]int{"L": 2, "OPS": 0}, Thorough: map[string]int{"L": 3, "OPS": 0}, MustReach: []string{"C14/tokens/complete", "C14/tokens/cut"}, PanicLabel: "C14/tokens/no-panic"},
 				{Harness: "VP_C14_tokens", Quick: map[string]int{"L": 4, "OPS": 2}, Thorough: map[string]int{"L": 5, "OPS": 2}, MustReach: []string{"C14/tokens/complete"}, PanicLabel: "C14/tokens/no-panic"},
 				{Harness: "VP_C14_tokens", Quick: map[string]int{"L": 4, "OPS": 1}, Thorough: map[string]int{"L": 5, "OPS": 1}, MustReach: []string{"C14/tokens/complete"}, PanicLabel: "C14/tokens/no-panic"},
+				{Harness: "VP_C14_spacing", Quick: map[string]int{"L": 3}, Thorough: map[string]int{"L": 3}, MustReach: []string{"C14/spacing/accepted", "C14/spacing/rejected"}, PanicLabel: "C14/spacing/no-panic"},
 				{Harness: "VP_C14_scanstep", Quick: map[string]int{"L": 4, "ESC": 0}, Thorough: map[string]int{"L": 4, "ESC": 0}, MustReach: []string{"C14/scanstep/done"}, PanicLabel: "C14/scanstep/no-panic"},
 			},
 			Bounds: map[string]string{"tokens": "the real scanner's token sequence (kind, start, end, line-break flag) equals an independent longest-match reference tokenizer's (operator table longest-first, keywords as whole words, identifier classes, ES whitespace/line-break separators) on every text of L symbolic bytes (quick L=2, thorough L=3) and on every text of L bytes over the operator-dense alphabet {= ! . & | ? < > + a 1 space newline 0xC2 0xA0 (NBSP)} (quick L=4, thorough L=5); comparison stops where the statement leaves token extents open (malformed numbers, hex, unterminated strings, escapes)",
-				"spacing": "byte level: every text of L bytes over {a 1 . ( ) , + ! ? : space}, a separator from {space, tab, LF, CR LF, U+2028, NBSP, space LF space} inserted before any one token (also before the end): an accepted text stays accepted with the same tree, a rejected text stays rejected; line breaks before . !. ( excepted; quick L=3, thorough L=4",
+				"spacing": "byte level: every text of L bytes over {a 1 . ( ) , + ! ? : space}, a separator from {space, tab, LF, CR LF, U+2028, NBSP, space LF space} inserted before any one token (also before the end): an accepted text stays accepted with the same tree, a rejected text stays rejected; line breaks before . !. ( excepted; L=3 in both tiers",
 				"classes": "every code point 0..0x10FFFF (one symbolic 32-bit rune)", "scanstep": "one Scan() from every start position of every text of L symbolic bytes (inductive step: tiling for all texts of that size follows by induction over calls); L=4 in both tiers (a malformed \\x escape needs four bytes)"},
 			Outside:     []string{"contents of the ES5 identifier tables (no independent oracle)", "texts longer than the bound"},
 			Assumptions: commonAssumptions,
